@@ -268,6 +268,10 @@ func (g *gl) stmt(s ast.Stmt, c *glCtx, k glK) string {
 			return k(c)
 		}
 		var bs []glBind
+		if g.isLogging(call) {
+			g.evalArgsOnly(call, &bs)
+			return glWrap(bs, k(c))
+		}
 		if tgt, nv, _, ok := g.callUpdate(call, &bs); ok {
 			c = g.assignTo(tgt, nv, &bs, c)
 			return glWrap(bs, k(c))
